@@ -4,6 +4,7 @@ import (
 	"errors"
 	"fmt"
 	"io"
+	"math"
 
 	"github.com/parquet-go/parquet-go"
 
@@ -116,6 +117,83 @@ func drive(c *core.Ctx, prop string, sf *env.SimFile, fo gen.FOpts, path string,
 		}
 		res.Complete = true
 		return
+	case "merge":
+		// the row groups merged on one of the sortable non-repeated leaves (the data is
+		// not sorted on it: the merged order is not examined, only what is
+		// delivered): every delivered row is a written row not delivered before,
+		// and a clean end delivers them all
+		opts := []parquet.RowGroupOption{f.Schema()}
+		var sortable [][]string
+		for _, col := range f.Schema().Columns() {
+			leaf, ok := f.Schema().Lookup(col...)
+			if !ok || leaf.MaxRepetitionLevel != 0 {
+				continue
+			}
+			switch leaf.Node.Type().Kind() {
+			case parquet.Int32, parquet.Int64, parquet.Float, parquet.Double, parquet.ByteArray:
+				sortable = append(sortable, col)
+			}
+		}
+		if len(sortable) > 0 {
+			// which one varies with the row count: the first column of several
+			// shapes is a row counter, on which row groups never overlap
+			col := sortable[len(model)%len(sortable)]
+			opts = append(opts, parquet.SortingRowGroupConfig(parquet.SortingColumns(parquet.Ascending(col...))))
+		}
+		merged, err := parquet.MergeRowGroups(f.RowGroups(), opts...)
+		if err != nil {
+			res.Err, res.Stage = err, "open"
+			return
+		}
+		left := make(map[string]int, len(model))
+		for _, row := range model {
+			left[rowKey(row)]++
+		}
+		rows := merged.Rows()
+		stalls := 0
+		for {
+			n := b.next()
+			buf := make([]parquet.Row, n)
+			m, err := rows.ReadRows(buf)
+			c.Step()
+			if m < 0 || m > n {
+				res.Wrong = core.Violate(prop+"/bad-count/"+path, "ReadRows returned %d for a buffer of %d", m, n)
+				rows.Close()
+				return
+			}
+			for i := 0; i < m; i++ {
+				k := rowKey(buf[i])
+				if left[k] == 0 {
+					res.Wrong = core.Violate(prop+"/wrong-row/"+path, "delivered row %d was not written, or was delivered before: %s", res.Delivered, trunc(fmt.Sprintf("%+v", buf[i])))
+					rows.Close()
+					return
+				}
+				left[k]--
+				res.Delivered++
+			}
+			if err != nil {
+				if !errors.Is(err, io.EOF) {
+					res.Err = err
+					rows.Close()
+					return
+				}
+				break
+			}
+			if m == 0 {
+				if stalls++; stalls > 8 {
+					res.Err = fmt.Errorf("pqsim: no progress")
+					rows.Close()
+					return
+				}
+			} else {
+				stalls = 0
+			}
+		}
+		if cerr := rows.Close(); cerr != nil {
+			res.Err, res.Stage = cerr, "close"
+			return
+		}
+		res.Complete = res.Delivered == len(model)
 	case "rowgroups":
 		pos := 0
 		for _, rg := range f.RowGroups() {
@@ -289,4 +367,32 @@ func readColumnPages(cc parquet.ColumnChunk, c *core.Ctx) (vals []parquet.Value,
 		rows += p.NumRows()
 		parquet.Release(p)
 	}
+}
+
+// rowKey is a string under which two rows are equal exactly when gen.RowEqual
+// says so.
+func rowKey(row parquet.Row) string {
+	var sb []byte
+	for _, v := range row {
+		sb = fmt.Appendf(sb, "%d.%d.%d", v.Column(), v.RepetitionLevel(), v.DefinitionLevel())
+		switch {
+		case v.IsNull():
+			sb = append(sb, 'n')
+		default:
+			switch v.Kind() {
+			case parquet.ByteArray, parquet.FixedLenByteArray, parquet.Int96:
+				sb = fmt.Appendf(sb, "b%d:%s", len(v.ByteArray()), v.ByteArray())
+			case parquet.Boolean:
+				sb = fmt.Appendf(sb, "t%v", v.Boolean())
+			case parquet.Int32:
+				sb = fmt.Appendf(sb, "i%d", v.Int32())
+			case parquet.Float:
+				sb = fmt.Appendf(sb, "f%x", math.Float32bits(v.Float()))
+			default:
+				sb = fmt.Appendf(sb, "u%x", v.Uint64())
+			}
+		}
+		sb = append(sb, '|')
+	}
+	return string(sb)
 }
